@@ -2,8 +2,8 @@ package main
 
 import (
 	"fmt"
-	"os"
 	"math/big"
+	"os"
 	"sort"
 	"strconv"
 	"strings"
@@ -41,21 +41,21 @@ type batchView struct {
 }
 
 type snapshot struct {
-	bal      map[string]*big.Int // acc/denom
-	supply   map[string]*big.Int
-	pool     map[string][]steView
-	batches  map[string][]batchView
-	sets     map[string][]*types.SignerSetTx
-	lastSte  map[string]uint64
-	lastBn   map[string]uint64
-	outSeq   map[string]uint64
-	lastObs  map[string]uint64
-	obsExt   map[string]uint64
-	status   map[string]int
-	feeRec   map[string][2]*big.Int
-	records  map[string][]voteRec
-	height   int64
-	time     int64
+	bal     map[string]*big.Int // acc/denom
+	supply  map[string]*big.Int
+	pool    map[string][]steView
+	batches map[string][]batchView
+	sets    map[string][]*types.SignerSetTx
+	lastSte map[string]uint64
+	lastBn  map[string]uint64
+	outSeq  map[string]uint64
+	lastObs map[string]uint64
+	obsExt  map[string]uint64
+	status  map[string]int
+	feeRec  map[string][2]*big.Int
+	records map[string][]voteRec
+	height  int64
+	time    int64
 }
 
 type debit struct {
@@ -65,22 +65,25 @@ type debit struct {
 }
 
 type Monitor struct {
-	prop    string
-	history int
-	viol    []Violation
-	seen    map[string]bool
-	before  *snapshot
-	tokens  []tokSpec
-	comm    map[uint64]*big.Int // token id -> commission rate (scaled)
-	holders map[string]*big.Int
+	prop      string
+	history   int
+	viol      []Violation
+	seen      map[string]bool
+	before    *snapshot
+	tokens    []tokSpec
+	comm      map[uint64]*big.Int // token id -> commission rate (scaled)
+	holders   map[string]*big.Int
 	timeoutMs uint64
 	// ghost state
-	debits   map[string]debit // chain/id -> hub units taken from the sender
-	terminal map[string]string   // chain/id -> "executed" | "refunded"
-	everLive map[string]bool
-	custody  map[string]*big.Int // chain/extToken -> external units locked
-	statusOf map[string]int
+	debits      map[string]debit  // chain/id -> hub units taken from the sender
+	terminal    map[string]string // chain/id -> "executed" | "refunded"
+	everLive    map[string]bool
+	custody     map[string]*big.Int // chain/extToken -> external units locked
+	statusOf    map[string]int
 	lastBankBad bool
+	obefore *oracleSnap
+	pclaims []oclaim
+	hclaims []oclaim
 }
 
 func NewMonitor(prop string, history int) *Monitor {
@@ -268,6 +271,12 @@ func (m *Monitor) Before(g *Gen, line string) {
 			m.timeoutMs, _ = strconv.ParseUint(w[2], 10, 64)
 		}
 	}
+	if m.prop == "C18" {
+		if w[0] == "oprice" || w[0] == "oholders" || w[0] == "oend" {
+			m.oracleBefore(g, w)
+		}
+		return
+	}
 	if !g.env.inited {
 		return
 	}
@@ -280,6 +289,10 @@ func (m *Monitor) Before(g *Gen, line string) {
 }
 
 func (m *Monitor) After(g *Gen, line, out string) {
+	if m.prop == "C18" {
+		m.oracleAfter(g, strings.Fields(line), out)
+		return
+	}
 	if m.prop == "" || m.before == nil {
 		return
 	}
@@ -306,6 +319,245 @@ func (m *Monitor) After(g *Gen, line, out string) {
 		m.checkVotes(g, w, out, b, a)
 	}
 	m.before = nil
+}
+
+// ---------------------------------------------------------------- C18 (oracle)
+
+type oracleSnap struct {
+	epoch   uint64
+	prices  string
+	holders string
+}
+
+func (m *Monitor) osnap(g *Gen) oracleSnap {
+	d := g.env.DumpOracle()
+	f := strings.Fields(d)
+	o := oracleSnap{}
+	for _, x := range f {
+		switch {
+		case strings.HasPrefix(x, "epoch="):
+			o.epoch, _ = strconv.ParseUint(x[6:], 10, 64)
+		case strings.HasPrefix(x, "prices="):
+			o.prices = x[7:]
+		case strings.HasPrefix(x, "holders="):
+			o.holders = x[8:]
+		}
+	}
+	return o
+}
+
+type oclaim struct {
+	val   string
+	items [][2]string
+}
+
+func (m *Monitor) oracleBefore(g *Gen, w []string) {
+	if !g.env.inited {
+		return
+	}
+	o := m.osnap(g)
+	m.obefore = &o
+}
+
+func (m *Monitor) oracleAfter(g *Gen, w []string, out string) {
+	if m.obefore == nil {
+		return
+	}
+	b := *m.obefore
+	a := m.osnap(g)
+	m.obefore = nil
+	switch w[0] {
+	case "oprice", "oholders":
+		if a.prices != b.prices || a.holders != b.holders || a.epoch != b.epoch {
+			m.report(g, "state-changed-outside-epoch-boundary", fmt.Sprintf("%v: prices/holders/epoch changed by a claim", w[:3]))
+		}
+		if out == "ok" {
+			ep, _ := strconv.ParseUint(w[2], 10, 64)
+			if ep == b.epoch {
+				var items [][2]string
+				if w[3] != "-" {
+					for _, it := range strings.Split(w[3], ",") {
+						kv := strings.SplitN(it, "=", 2)
+						items = append(items, [2]string{kv[0], kv[1]})
+					}
+				}
+				tgt := m.pclaims
+				if w[0] == "oholders" {
+					tgt = m.hclaims
+				}
+				// latest report replaces the earlier one of the same validator
+				repl := false
+				for i := range tgt {
+					if tgt[i].val == w[1] {
+						tgt[i].items = items
+						repl = true
+					}
+				}
+				if !repl {
+					tgt = append(tgt, oclaim{w[1], items})
+				}
+				if w[0] == "oholders" {
+					m.hclaims = tgt
+				} else {
+					m.pclaims = tgt
+				}
+			}
+		}
+	case "oend":
+		if out != "ok" {
+			return
+		}
+		if a.epoch == b.epoch {
+			if a.prices != b.prices || a.holders != b.holders {
+				m.report(g, "state-changed-outside-epoch-boundary", "prices/holders changed by an end-block that did not close an epoch")
+			}
+			return
+		}
+		// staking view at the boundary
+		total := int64(0)
+		power := map[string]int64{}
+		for _, v := range g.env.staking.vals {
+			if v.bonded {
+				total += v.power
+				power[fmt.Sprintf("%x", []byte(v.addr))] = v.power
+			}
+		}
+		quorum := func(cl []oclaim) bool {
+			s := int64(0)
+			for _, c := range cl {
+				s += power[c.val]
+			}
+			return len(cl) > 0 && s*100 >= 66*total
+		}
+		weight := func(v string) int64 {
+			if total == 0 {
+				return 0
+			}
+			return power[v] * 65535 / total
+		}
+		// prices
+		if a.prices != b.prices {
+			if !quorum(m.pclaims) {
+				m.report(g, "prices-changed-without-66-percent", fmt.Sprintf("epoch %d: reporters %d", b.epoch, len(m.pclaims)))
+			} else {
+				want := m.medianPrices(m.pclaims, weight)
+				if want != a.prices {
+					cls := "price-not-weighted-median"
+					for _, c := range m.pclaims {
+						seen := map[string]bool{}
+						for _, it := range c.items {
+							if seen[it[0]] {
+								cls = "duplicate-price-name-multiplies-weight"
+							}
+							seen[it[0]] = true
+						}
+					}
+					m.report(g, cls, fmt.Sprintf("epoch %d stored %s expected %s", b.epoch, a.prices, want))
+				}
+			}
+		} else if quorum(m.pclaims) {
+			want := m.medianPrices(m.pclaims, weight)
+			if want != a.prices && want != "" {
+				m.report(g, "prices-not-updated-despite-quorum", fmt.Sprintf("epoch %d stored %s expected %s", b.epoch, a.prices, want))
+			}
+		}
+		// holders
+		if a.holders != b.holders {
+			// more than two thirds of stake reported the identical list
+			best := int64(0)
+			for _, c := range m.hclaims {
+				if canonItems(c.items) == canonList(a.holders) {
+					best += power[c.val]
+				}
+			}
+			if !(3*best > 2*total) || !quorum(m.hclaims) {
+				m.report(g, "holders-adopted-without-two-thirds", fmt.Sprintf("epoch %d adopted %s backed by %d of %d", b.epoch, a.holders, best, total))
+			}
+		}
+		m.pclaims, m.hclaims = nil, nil
+	}
+}
+
+func canonItems(items [][2]string) string {
+	var l []string
+	for _, it := range items {
+		l = append(l, it[0]+":"+it[1])
+	}
+	sort.Strings(l)
+	return strings.Join(l, ",")
+}
+
+func canonList(s string) string {
+	if s == "" {
+		return ""
+	}
+	var l []string
+	for _, it := range strings.Split(s, ",") {
+		kv := strings.SplitN(it, "=", 2)
+		l = append(l, kv[0]+":"+kv[1])
+	}
+	sort.Strings(l)
+	return strings.Join(l, ",")
+}
+
+// medianPrices: every validator's latest report counts once per price name (the last value it
+// gave for that name), weighted by floor(power*65535/total); the median of the expanded sorted list,
+// mean of the two middle values (truncated) when the list length is even.
+func (m *Monitor) medianPrices(cl []oclaim, weight func(string) int64) string {
+	type wv struct {
+		v *big.Int
+		w int64
+	}
+	by := map[string][]wv{}
+	for _, c := range cl {
+		w := weight(c.val)
+		if w == 0 {
+			continue
+		}
+		last := map[string]string{}
+		var order []string
+		for _, it := range c.items {
+			if _, ok := last[it[0]]; !ok {
+				order = append(order, it[0])
+			}
+			last[it[0]] = it[1]
+		}
+		for _, n := range order {
+			by[n] = append(by[n], wv{bi(last[n]), w})
+		}
+	}
+	var names []string
+	for n := range by {
+		names = append(names, n)
+	}
+	sort.Strings(names)
+	var out []string
+	for _, n := range names {
+		l := by[n]
+		sort.Slice(l, func(i, j int) bool { return l[i].v.Cmp(l[j].v) < 0 })
+		W := int64(0)
+		for _, x := range l {
+			W += x.w
+		}
+		nth := func(k int64) *big.Int {
+			for _, x := range l {
+				if k < x.w {
+					return x.v
+				}
+				k -= x.w
+			}
+			return big.NewInt(0)
+		}
+		var med *big.Int
+		if W%2 == 0 {
+			med = new(big.Int).Add(nth(W/2), nth(W/2-1))
+			med.Quo(med, big.NewInt(2))
+		} else {
+			med = nth(W / 2)
+		}
+		out = append(out, n+"="+med.String())
+	}
+	return strings.Join(out, ",")
 }
 
 // appliedEvents returns the events applied by an `end` op: the accepted records whose nonce lies
